@@ -8,7 +8,7 @@ META = {
     'rule': 'all ordered pairs of DFAs with <=2 states over {a} and sampled pairs of 2-state DFAs over {a,b}; seeded random pairs '
             '(1-5 states): renamed copies (with extra unreachable states), equivalent-but-not-isomorphic pairs (a DFA vs its minimised / '
             'unminimised form), inequivalent pairs; both routines, both argument orders, 5 s alarm per call; compared with the Lean '
-            'model and a reference bijection search; non-trivial = both DFAs have >=2 reachable states; distinct by content',
+            'model and a reference bijection search; non-trivial = both DFAs have >=2 reachable states; distinct by content; also pairs where a state of D1 is reached by two symbols and D2 splits them, the empty string as a state name',
     'assumptions': ['DFA.valid (constructor), equal alphabets'],
     'trusted_base': ['Spec: Gamba/Spec/Iso.lean'],
 }
